@@ -8,7 +8,8 @@ Open Scope string_scope.
 
 (* FULL statement of the property on the faithful model: for every pair, every std type, every argument vectors,
    every column, the batch rows equal the rows of the single calls, and the same inputs are rejected.
-   It is false of pandapower as it is: refuted below for transformers, lines, buses/gens, wards, costs. *)
+   It is still false of pandapower for create_transformers (std-type parameters, a recorded finding) and for alpha of create_lines;
+   the other pairs were repaired (fix: commits da5bd7f7c..3fe9b260d): their previous behaviour is kept as *_old and refuted. *)
 
 (* --- for all inputs, under the boolean guard G24 (= the two functions take the value of every electrical column
    from the same place, given this std type): the rows are equal, column by column.
@@ -38,45 +39,51 @@ Theorem C24_batch_rejects_iff_fold_partial : forall ds db, checks_compat ds db =
 Proof. exact batch_rejects_iff_fold. Qed.
 Print Assumptions C24_batch_rejects_iff_fold_partial.
 
-(* --- pairs for which the guards hold for every std type: loads, storages (rows and rejections),
-   3W transformers (all electrical columns, incl. everything taken from the std type; rejections),
-   wards (rows only), buses / gens / lines (rejections only) *)
+(* --- pairs for which the guards hold for every std type: loads, storages, wards (rows and rejections), buses / gens (rejections),
+   3W transformers and lines (all electrical columns incl. everything taken from the std type, except alpha of lines;
+   rejections), transformers (rejections incl. df <= 0) *)
 Theorem C24_load_storage_full : forall std,
   (G24 std d_load_s d_load_b = true /\ checks_compat d_load_s d_load_b = true) /\
   (G24 std d_storage_s d_storage_b = true /\ checks_compat d_storage_s d_storage_b = true).
 Proof. intros std. split; [apply compat_load | apply compat_storage]. Qed.
 Print Assumptions C24_load_storage_full.
 
+Theorem C24_ward_full : forall std, G24 std d_ward_s d_ward_b = true /\ checks_compat d_ward_s d_ward_b = true.
+Proof. exact compat_ward. Qed.
+Print Assumptions C24_ward_full.
+Theorem C24_bus_gen_checks_full : checks_compat d_bus_s d_bus_b = true /\ checks_compat d_gen_s d_gen_b = true.
+Proof. exact compat_bus_gen_checks. Qed.
+Print Assumptions C24_bus_gen_checks_full.
+
 Theorem C24_trafo3w_full : (forall std c, In c elec_trafo3w -> col_compat std d_t3_s d_t3_b c = true) /\
   checks_compat d_t3_s d_t3_b = true.
 Proof. split; [exact compat_t3 | exact compat_t3_checks]. Qed.
 Print Assumptions C24_trafo3w_full.
 
-Theorem C24_checks_bus_gen_line_full :
-  checks_compat d_bus_s d_bus_b = true /\ checks_compat d_gen_s d_gen_b = true /\ checks_compat d_line_s d_line_b = true.
-Proof. repeat split; reflexivity. Qed.
-Print Assumptions C24_checks_bus_gen_line_full.
+Theorem C24_line_full : (forall std c, In c elec_line -> col_compat std d_line_s d_line_b c = true) /\
+  checks_compat d_line_s d_line_b = true.
+Proof. split; [exact compat_line | exact compat_line_checks]. Qed.
+Print Assumptions C24_line_full.
 
-(* --- refutations (each by a concrete input evaluated on the faithful model) *)
-(* create_transformers drops shift_degree and the tap changer data of the std type *)
+Theorem C24_trafo_checks_full : checks_compat d_trafo_s d_trafo_b = true.
+Proof. exact compat_trafo_checks. Qed.
+Print Assumptions C24_trafo_checks_full.
+
+(* --- still refuted: create_transformers drops shift_degree and the tap changer data of the std type (known finding) *)
 Theorem C24_trafo_refuted : exists std l c oc,
   new_vals oc (batch_col (spec_of d_trafo_b c) std l oc) <> new_vals oc (fold_col (spec_of d_trafo_s c) std l oc).
 Proof. exact trafo_refuted. Qed.
 Print Assumptions C24_trafo_refuted.
 Example C24_trafo_partial_nonvacuous : G24 std_trafo_plain d_trafo_s d_trafo_b = true.
 Proof. exact trafo_nonvacuous. Qed.
-(* ... and does not reject df <= 0 *)
-Theorem C24_trafo_checks_differ : checks_compat d_trafo_s d_trafo_b = false.
-Proof. exact trafo_df_check_differs. Qed.
+(* alpha is the only column on which create_lines and create_line are not compatible (create_line copies it from the
+   type only when the column exists) *)
+Theorem C24_line_alpha_only : incompat_cols std_line_w d_line_s d_line_b = ["alpha"; "alpha"].
+Proof. exact line_alpha_only. Qed.
 
-(* create_lines drops the zero-sequence parameters of the std type *)
-Theorem C24_line_refuted : exists std l c oc,
-  new_vals oc (batch_col (spec_of d_line_b c) std l oc) <> new_vals oc (fold_col (spec_of d_line_s c) std l oc).
-Proof. exact line_refuted. Qed.
-Print Assumptions C24_line_refuted.
-
-(* create_buses / create_gens leave min_vm_pu / max_vm_pu NaN where create_bus / create_gen write 0.0 / 2.0;
-   these are the only incompatible columns *)
+(* create_buses / create_gens leave min_vm_pu / max_vm_pu NaN where create_bus / create_gen write 0.0 / 2.0 (known
+   finding: the repair was withdrawn because the REI code of grid_equivalents relies on it); these are the only
+   incompatible columns, and with the proposed repair (default_val passed) the pairs are compatible for every input *)
 Theorem C24_bus_refuted : exists l c oc,
   new_vals oc (batch_col (spec_of d_bus_b c) [] l oc) <> new_vals oc (fold_col (spec_of d_bus_s c) [] l oc).
 Proof. exact bus_refuted. Qed.
@@ -86,26 +93,41 @@ Theorem C24_bus_gen_only_vm_limits : forall std,
   incompat_cols std d_gen_s d_gen_b = ["max_vm_pu"; "min_vm_pu"; "max_vm_pu"; "min_vm_pu"].
 Proof. intros std. split; [apply bus_incompat | apply gen_incompat]. Qed.
 Print Assumptions C24_bus_gen_only_vm_limits.
+Theorem C24_bus_gen_repair_full : forall std,
+  (G24 std d_bus_s d_bus_b_repair = true /\ checks_compat d_bus_s d_bus_b_repair = true) /\
+  (G24 std d_gen_s d_gen_b_repair = true /\ checks_compat d_gen_s d_gen_b_repair = true).
+Proof. intros std. split; [apply compat_bus_repair | apply compat_gen_repair]. Qed.
+Print Assumptions C24_bus_gen_repair_full.
 
-(* create_wards checks / allocates the index against net.storage *)
-Theorem C24_ward_refuted : exists t idxs l, batch_ok d_ward_b t [] idxs l <> fold_ok d_ward_s t [] idxs l.
-Proof. exact ward_refuted. Qed.
-Print Assumptions C24_ward_refuted.
-Theorem C24_ward_rows_full : forall std, G24 std d_ward_s d_ward_b = true.
-Proof. exact compat_ward_cols. Qed.
+(* --- regression witnesses: the behaviour before the repairs violates the property *)
+Theorem C24_trafo_old_checks_differ : checks_compat d_trafo_s d_trafo_b_old = false.
+Proof. exact trafo_old_df_check_differs. Qed.
+Theorem C24_line_old_refuted : exists std l c oc,
+  new_vals oc (batch_col (spec_of d_line_b_old c) std l oc) <> new_vals oc (fold_col (spec_of d_line_s c) std l oc).
+Proof. exact line_old_refuted. Qed.
+Print Assumptions C24_line_old_refuted.
+Theorem C24_ward_old_refuted : exists t idxs l, batch_ok d_ward_b_old t [] idxs l <> fold_ok d_ward_s t [] idxs l.
+Proof. exact ward_old_refuted. Qed.
+Print Assumptions C24_ward_old_refuted.
 
-(* --- duplicate costs (et given as one string): _costs_existance_check computes sum(poly) & sum(pwl) *)
-Theorem C24_cost_batch_rejects_only_duplicates : forall is_poly poly pwl els et pt,
-  costs_batch_rejects is_poly poly pwl els et pt = true -> cost_fold_rejects is_poly poly pwl els et pt = true.
-Proof. exact cost_batch_sound. Qed.
-Print Assumptions C24_cost_batch_rejects_only_duplicates.
-Theorem C24_cost_refuted : exists is_poly poly pwl els et pt,
-  cost_fold_rejects is_poly poly pwl els et pt = true /\ costs_batch_rejects is_poly poly pwl els et pt = false.
-Proof. exact cost_refuted. Qed.
-Print Assumptions C24_cost_refuted.
-Theorem C24_cost_partial : forall is_poly poly pwl els et pt, G24_cost poly pwl els et = true ->
-  cost_fold_rejects is_poly poly pwl els et pt = false /\ costs_batch_rejects is_poly poly pwl els et pt = false.
-Proof. exact cost_partial. Qed.
-Print Assumptions C24_cost_partial.
+(* --- duplicate costs (et given as one string): the repaired batch check is the sequence of single checks, for all
+   existing cost tables and element lists *)
+Theorem C24_cost_batch_eq_fold_full : forall is_poly et pt els poly pwl,
+  costs_batch_rejects is_poly poly pwl els et pt = cost_fold_rejects is_poly poly pwl els et pt.
+Proof. exact cost_batch_eq_fold. Qed.
+Print Assumptions C24_cost_batch_eq_fold_full.
+(* the check before the repair (sum(poly) & sum(pwl)): sound but far from complete *)
+Theorem C24_cost_old_rejects_only_duplicates : forall is_poly poly pwl els et pt,
+  costs_batch_rejects_old is_poly poly pwl els et pt = true -> cost_fold_rejects is_poly poly pwl els et pt = true.
+Proof. exact cost_old_batch_sound. Qed.
+Print Assumptions C24_cost_old_rejects_only_duplicates.
+Theorem C24_cost_old_refuted : exists is_poly poly pwl els et pt,
+  cost_fold_rejects is_poly poly pwl els et pt = true /\ costs_batch_rejects_old is_poly poly pwl els et pt = false.
+Proof. exact cost_old_refuted. Qed.
+Print Assumptions C24_cost_old_refuted.
+Theorem C24_cost_old_partial : forall is_poly poly pwl els et pt, G24_cost poly pwl els et = true ->
+  cost_fold_rejects is_poly poly pwl els et pt = false /\ costs_batch_rejects_old is_poly poly pwl els et pt = false.
+Proof. exact cost_old_partial. Qed.
+Print Assumptions C24_cost_old_partial.
 Example C24_cost_partial_nonvacuous : G24_cost [mkcost 3 "gen" "p"] [mkcost 1 "load" "p"] [0%Z; 1%Z; 2%Z] "gen" = true.
 Proof. exact cost_partial_nonvacuous. Qed.
